@@ -123,8 +123,11 @@ class RecPlugin(ResourceProvider, SnapshotDecorator, TracepointLogger, SpanProce
 
     ROLES = ('resource', 'decorate', 'log', 'span', 'metric')
 
-    def __init__(self, name='rec', roles=ROLES, faults=(), exc=Exception, order_=0, config=None, events=None):
+    def __init__(self, name='rec', roles=ROLES, faults=(), exc=Exception, order_=0, config=None, events=None,
+                 falsy=False, resource_wrong_type=False):
         Plugin.__init__(self, name=name, config=config)
+        self.falsy = falsy                      # the plugin object itself is falsy (it has a __len__ that returns 0)
+        self.resource_wrong_type = resource_wrong_type
         self.roles = set(roles)
         self.faults = set(faults)
         self.exc = exc
@@ -145,6 +148,11 @@ class RecPlugin(ResourceProvider, SnapshotDecorator, TracepointLogger, SpanProce
     def is_active(self):
         return True
 
+    def __len__(self):
+        # a plugin that keeps a registry of series / spans / lines may well define __len__: whether it is "empty" says
+        # nothing about whether it is a plugin
+        return 0 if self.falsy else 1
+
     def order(self):
         return self.order_
 
@@ -156,6 +164,8 @@ class RecPlugin(ResourceProvider, SnapshotDecorator, TracepointLogger, SpanProce
     def resource(self):
         self.record('resource')
         if 'resource' in self.faults:
+            if self.resource_wrong_type:
+                return {'plugin.' + self.name: 'not a Resource'}     # a faulty plugin: the wrong type instead of raising
             raise self.exc("resource failed")
         return Resource({'plugin.' + self.name: 'yes'})
 
@@ -209,7 +219,7 @@ def role_plugin(name, roles, **kw):
         if r in roles:
             bases.append(m[r])
     ns = {}
-    for attr in ('__init__', 'record', 'is_active', 'order', 'shutdown', 'resource', 'decorate', 'log_tracepoint',
+    for attr in ('__init__', 'record', 'is_active', '__len__', 'order', 'shutdown', 'resource', 'decorate', 'log_tracepoint',
                  'create_span', 'current_span', '_metric', 'counter', 'gauge', 'histogram', 'summary'):
         ns[attr] = RecPlugin.__dict__[attr]
     ns['ROLES'] = RecPlugin.ROLES
